@@ -464,6 +464,35 @@ def template_kxr(rng):
     return fen_of(b, "w", cas)
 
 
+def template_kxhome(rng):
+    """king WITHOUT the corresponding castling right next to an enemy man standing on a home-rank square -- the corner squares and,
+    with a leftover right on the other wing, Chess960 rook files -- which it may capture (eighth seed round: the castling
+    rook's home square is remembered in castle_files after the right is gone, so 'king moves onto that square' must not be read as castling)"""
+    kf = rng.randrange(0, 8)
+    kr = rng.choice([0, 0, 1])
+    b = {sq(kf, kr): "K"}
+    cas = ""
+    cands = [(kf + df, 0) for df in (-1, 0, 1) if on(kf + df, 0) and (kf + df, 0) != (kf, kr)]
+    corner = [c for c in cands if c[0] in (0, 7)]
+    tf, tr = rng.choice(corner) if corner and rng.random() < 0.7 else rng.choice(cands)
+    b[sq(tf, tr)] = rng.choice("nbrq")
+    if kr == 0 and rng.random() < 0.4:        # a right on the other wing survives
+        if tf > kf and kf > 0:
+            rf = rng.randrange(0, kf)
+            if sq(rf, 0) not in b:
+                b[sq(rf, 0)] = "R"
+                cas = FILES[rf].upper() if rng.random() < 0.5 or rf != 0 else "Q"
+        elif tf < kf and kf < 7:
+            rf = rng.randrange(kf + 1, 8)
+            if sq(rf, 0) not in b:
+                b[sq(rf, 0)] = "R"
+                cas = FILES[rf].upper() if rng.random() < 0.5 or rf != 7 else "K"
+    free = [s for s in range(24, 64) if s not in b]
+    b[rng.choice(free)] = "k"
+    b = rand_extra(rng, b, rng.randrange(0, 3))
+    return fen_of(b, "w", cas or "-", hm=rng.randrange(0, 40), fm=rng.randrange(1, 60))
+
+
 ENDGAME_SIDES = ["", "B", "N", "R", "Q", "BB", "BN", "NN", "RB", "RN", "RR", "QR", "QB", "QN", "QQ", "BBN", "RBN"]
 
 
@@ -569,7 +598,7 @@ def template_edgewrap(rng):
     return fen_of(b, "w")
 
 
-TEMPLATES = [("endgame", template_endgame), ("promo-castle", template_promo_castle), ("many", template_many_queens), ("kxr", template_kxr), ("pin", template_pin), ("multipin", template_multipin), ("pawnwedge", template_pawnwedge), ("check", template_check), ("ep", template_ep),
+TEMPLATES = [("endgame", template_endgame), ("promo-castle", template_promo_castle), ("many", template_many_queens), ("kxr", template_kxr), ("kxhome", template_kxhome), ("pin", template_pin), ("multipin", template_multipin), ("pawnwedge", template_pawnwedge), ("check", template_check), ("ep", template_ep),
              ("castle960", template_castle), ("promo", template_promo), ("longray", template_longray), ("edgewrap", template_edgewrap)]
 
 
